@@ -65,6 +65,8 @@ def run(ctx) -> None:
         for meth, track, kind in (("aspirate", "remove", "A"), ("dispense", "add", "D")):
             ctx.reuse("C07.record-pair", c01.pair_ad, dev, meth, track, kind)
     ctx.guard("C07.tip-action", wash_method)
+    for meth in ("aspirate", "dispense"):
+        ctx.guard("C07.step-block", step_records_only, meth)
     from . import c04, c18
 
     ctx.reuse("C07.broadcast", c04.pairing_family)
@@ -80,6 +82,35 @@ def run(ctx) -> None:
     ctx.reuse("C07.record-pair", c08.trough_predicate)
     for dev in concrete_devices(ctx):
         ctx.reuse("C07.split-sum", c06.iteration_space, dev)
+
+
+def step_records_only(ctx, meth: str) -> None:
+    """aspirate() / dispense() write their A / D records and - when the caller gave a label - the label comment in front of
+    them, nothing else: transfer() calls them back to back, so any further record of one of them lands between an A record and
+    its D record (or between a D record and the wash of the same step)."""
+    rule = "C07.step-block"
+    f = ctx.prog.require_func(f"BaseWorklist.{meth}", rule)
+    fv = ctx.fv(f, f.cls)
+    selfn = f.params[0]
+    n = 0
+    bad = []
+    for node in fv.cfg.nodes:
+        effs = [e for e in ctx.E.node_effects(fv, node) if e.kind == "EMIT"]
+        if not effs:
+            continue
+        n += 1
+        kinds = {e.arg for e in effs}
+        calls = [x for x in own_walk(node.ast) if isinstance(x, ast.Call)] if node.ast is not None else []
+        label_comment = any(isinstance(c.func, ast.Attribute) and c.func.attr == "comment" and is_name(c.func.value, selfn) and len(c.args) == 1 and is_name(fv.alias_root(c.args[0], node.id), "label") for c in calls)
+        step = kinds <= {"A", "D"} and any(isinstance(c.func, ast.Attribute) and c.func.attr in (f"{meth}_well",) for c in calls)
+        if not (label_comment or step):
+            bad.append((node, kinds))
+    for node, kinds in bad:
+        ctx.rep.refuted(rule, f"{f.qualname}/extra-record[{stmt_key(node.ast)[:40]}]", f"`{stmt_key(node.ast)[:70]}` writes a {sorted(kinds)} record besides the {meth} records and the label comment: inside transfer() "
+                        "it lands between an A record and its D record", where=f.where(node.ast))
+    if not bad:
+        ctx.rep.holds(rule, f"{f.qualname}/records-only", f"{n} emitting statement(s): the label comment and the per-well records", where=f.where())
+    ctx.rep.floor(rule, f"emitting statements of BaseWorklist.{meth}", n, 2)
 
 
 def step_block(ctx, dev) -> None:
